@@ -15,7 +15,7 @@ for d in sorted(glob.glob("/verif/seeded/*_m*")):
         rows.append((name, "patch-does-not-apply", a.stderr.strip()[:100])); continue
     p = subprocess.run(["./check", pid], cwd="/verif", capture_output=True, text=True, timeout=3600)
     subprocess.run(["git", "-C", "/repo", "checkout", "--", "."], check=True)
-    lines = [l for l in p.stdout.splitlines() if l.startswith(("VIOLATION", "OK", "KNOWN"))]
+    lines = [l for l in p.stdout.splitlines() if l.startswith(("VIOLATION", "OK"))] + [l[:60] for l in p.stdout.splitlines() if l.startswith("KNOWN")]
     verdict = "MISSED" if p.returncode == 0 else ("caught(no-input)" if all("no-failing-input-found" in l for l in lines if l.startswith("VIOLATION")) else "caught")
     rows.append((name, verdict, "; ".join(l.replace("VIOLATION property=", "V ") for l in lines)[:160]))
     print(rows[-1], flush=True)
